@@ -4,6 +4,7 @@ import (
 	"context"
 	"errors"
 	"fmt"
+	"github.com/failsafe-go/failsafe-go/timeout"
 	"sync"
 	"time"
 
@@ -26,11 +27,15 @@ func init() {
 		}
 		ms := time.Millisecond
 		scs := []sc{
-			{"fixed", func() retrypolicy.RetryPolicyBuilder[any] { return retrypolicy.Builder[any]().WithDelay(4 * ms).WithMaxRetries(5) }, 0},
+			{"fixed", func() retrypolicy.RetryPolicyBuilder[any] {
+				return retrypolicy.Builder[any]().WithDelay(4 * ms).WithMaxRetries(5)
+			}, 0},
 			{"backoff", func() retrypolicy.RetryPolicyBuilder[any] {
 				return retrypolicy.Builder[any]().WithBackoffFactor(2*ms, 9*ms, 1.5).WithMaxRetries(5)
 			}, 0},
-			{"random", func() retrypolicy.RetryPolicyBuilder[any] { return retrypolicy.Builder[any]().WithRandomDelay(2*ms, 6*ms).WithMaxRetries(5) }, 0},
+			{"random", func() retrypolicy.RetryPolicyBuilder[any] {
+				return retrypolicy.Builder[any]().WithRandomDelay(2*ms, 6*ms).WithMaxRetries(5)
+			}, 0},
 			{"jitter", func() retrypolicy.RetryPolicyBuilder[any] {
 				return retrypolicy.Builder[any]().WithDelay(5 * ms).WithJitter(2 * ms).WithMaxRetries(5)
 			}, 0},
@@ -92,6 +97,42 @@ func init() {
 				bad++
 			}
 			fmt.Printf("retrytiming notbefore/%s retries=%d early=%d negative=%d %s\n", s.name, retries, early, negative, verdict)
+		}
+		// (a'') an inner retry policy whose wait is abandoned (an enclosing Timeout fires during it) and which an outer retry policy
+		// then runs again within the same execution: what the abandoned wait left behind must not shorten a later wait
+		{
+			var mu sync.Mutex
+			var schedAt time.Time
+			var schedDelay time.Duration
+			pending := false
+			early, retries, abandoned := 0, 0, 0
+			inner := retrypolicy.Builder[any]().WithDelay(40 * ms).WithMaxRetries(3).
+				OnRetryScheduled(func(e failsafe.ExecutionScheduledEvent[any]) {
+					mu.Lock()
+					schedAt, schedDelay, pending = time.Now(), e.Delay, true
+					mu.Unlock()
+				}).Build()
+			to := timeout.Builder[any](65 * ms).OnTimeoutExceeded(func(failsafe.ExecutionDoneEvent[any]) { abandoned++ }).Build()
+			outer := retrypolicy.Builder[any]().WithDelay(60 * ms).WithMaxRetries(2).Build()
+			failsafe.Run(func() error {
+				now := time.Now()
+				mu.Lock()
+				if pending {
+					retries++
+					if now.Sub(schedAt) < schedDelay {
+						early++
+					}
+					pending = false
+				}
+				mu.Unlock()
+				return errors.New("x")
+			}, outer, to, inner)
+			verdict := "ok"
+			if early > 0 || retries == 0 || abandoned == 0 {
+				verdict = "VIOLATION"
+				bad++
+			}
+			fmt.Printf("retrytiming notbefore/inner-policy-rerun-after-abandoned-wait retries=%d abandonedWaits=%d early=%d %s\n", retries, abandoned, early, verdict)
 		}
 		// (a') a wait that is left through its cancellation branch at the very moment its timer fires must not hand a spent timer
 		// to a later wait: after executions cancelled 0-195 us before a 2 ms delay expires (by a spinning canceller), a probe with a 20 ms delay still waits
